@@ -82,10 +82,26 @@ TDump ==
             THEN Fail("loaded_output_differs_from_the_dumped_one") /\ Hold /\ UNCHANGED <<digestOf, outcomeOf>>
           ELSE Dump(L.r) /\ UNCHANGED <<failed, digestOf, outcomeOf>>
 
+\* A {sid, r, digests, pred}: a PDF was applied to the output r returned last: digests of that object afterwards, digest of the predictions
+TApply ==
+  /\ Live /\ L.ev = "A" /\ l' = l + 1
+  /\ IF L.r \notin 1..Len(runners) \/ ~ENABLED Apply(L.r)
+       THEN Fail("session_not_a_behaviour_of_the_specification") /\ Hold /\ UNCHANGED <<digestOf, outcomeOf>>
+     ELSE LET want == runners[L.r].out
+              prs == [j \in 1..Len(want) |-> <<want[j], L.digests[j]>>]
+              pp  == << <<Prediction(runners[L.r].cfg), L.pred>> >> IN
+          IF Len(L.digests) # Len(want)
+            THEN Fail("slot_count_differs") /\ Hold /\ UNCHANGED <<digestOf, outcomeOf>>
+          ELSE IF ~Consistent(digestOf, prs)
+            THEN Fail("applying_a_pdf_changed_the_output_object") /\ Hold /\ UNCHANGED <<digestOf, outcomeOf>>
+          ELSE IF ~Consistent(digestOf, pp)
+            THEN Fail("prediction_depends_on_process_history") /\ Hold /\ UNCHANGED <<digestOf, outcomeOf>>
+          ELSE Apply(L.r) /\ digestOf' = Extend(digestOf, pp) /\ UNCHANGED <<failed, outcomeOf>>
+
 TSkipFailed == /\ l <= Len(TraceLog) /\ L.ev \notin {"Begin", "EOF"} /\ failed = L.sid
                /\ l' = l + 1 /\ UNCHANGED <<vars, failed, digestOf, outcomeOf>>
 TEOF == IsEv("EOF") /\ PrintT(<<"CONSUMED", l - 1>>) /\ l' = l + 1 /\ UNCHANGED <<vars, failed, digestOf, outcomeOf>>
-TNext == TBegin \/ TConstruct \/ TGet \/ TDump \/ TSkipFailed \/ TEOF
+TNext == TBegin \/ TConstruct \/ TGet \/ TDump \/ TApply \/ TSkipFailed \/ TEOF
 TraceSpec == TInit /\ [][TNext]_<<vars, tvars>>
 Accepted == TRUE
 =============================================================================
